@@ -2,7 +2,7 @@
 insert/find/clear histories on presorted_set and the FieldTrait specialisation)"""
 import vlib, gen_facts
 
-THEOREMS = ['C12_table_find', 'C12_utest_tables_sorted', 'C12_presorted_history', 'insert_ok']
+THEOREMS = ['C12_table_find', 'C12_table_miss', 'C12_utest_tables_sorted', 'C12_presorted_history', 'insert_ok']
 
 
 def hx(b):
